@@ -26,6 +26,8 @@ def topk(a, k, axis=-1, split_every=None):
 
     chunk_combine = partial(chunk.topk, k=k)
     aggregate = partial(chunk.topk_aggregate, k=k)
+    # no more than the axis holds: the blocks return every element when |k| exceeds it
+    output_size = abs(k) if np.isnan(a.shape[axis]) else min(abs(k), a.shape[axis])
 
     return reduction(
         a,
@@ -36,7 +38,7 @@ def topk(a, k, axis=-1, split_every=None):
         keepdims=True,
         dtype=a.dtype,
         split_every=split_every,
-        output_size=abs(k),
+        output_size=output_size,
     )
 
 
@@ -66,6 +68,8 @@ def argtopk(a, k, axis=-1, split_every=None):
         naxis = len(axis)
 
     meta = a._meta.astype(np.intp).reshape((0,) * (a.ndim - naxis + 1))
+    # no more than the axis holds: the blocks return every element when |k| exceeds it
+    output_size = abs(k) if np.isnan(a.shape[axis]) else min(abs(k), a.shape[axis])
 
     return reduction(
         a_plus_idx,
@@ -77,6 +81,6 @@ def argtopk(a, k, axis=-1, split_every=None):
         dtype=np.intp,
         split_every=split_every,
         concatenate=False,
-        output_size=abs(k),
+        output_size=output_size,
         meta=meta,
     )
